@@ -2,18 +2,18 @@ CONSTANTS
   NH = 2
   MaxBufs = 3
   Statics <- cStatics
-  OpKinds <- cOpsCore
-  StrArgs <- cStrS3
+  OpKinds <- cOpsIdx
+  StrArgs <- cStrMix
   CharArgs <- cChars
-  Caps = {0, 17, 30}
-  IdxMode = "few"
+  Caps = {0}
+  IdxMode = "all"
   RetainPats <- cRetain
   ItemSeqs <- cItems
   Hints = {0}
   FailMode = 0
   PanicMode = 0
-  Seeds <- cSeedsEmpty
-  MaxSteps = 3
+  Seeds <- cSeedsIdx
+  MaxSteps = 1
 SPECIFICATION Spec
 VIEW View
 INVARIANTS ModelTypeOK NoUninitRead
